@@ -465,12 +465,17 @@ def gen_collect(rnd):
                   {"k": "ret", "type": "EvF"}]},
         {"name": "sink", "in": ["EvF"], "nw": 1, "acts": [{"k": "collect", "types": ["EvF"] * (rounds * groups)}, {"k": "ret", "type": "StopEvent", "result": "collected"}]},
     ]
+    forward = rnd.random() < 0.3
+    if forward:
+        # the collecting step hands the result on with ctx.send_event and returns None (the other documented style), round after round
+        steps[1]["acts"][-1:] = [{"k": "send", "type": "EvF", "items": [{}]}, {"k": "ret", "type": None}]
+        steps[1]["declare"] = ["EvF"]
     flaky = rnd.random() < 0.25
     if flaky:
         # the collecting step fails once right after collect_events handed it a full set and is retried: the retry must get that set again
         steps[1]["retry"] = {"wait": {"k": "fixed", "w": rnd.choice([0, 0.5])}, "stop": {"k": "attempt", "n": 2}}
         steps[1]["acts"].insert(2, {"k": "fail", "n": 1, "exc": "E1"})
-    return {"family": "collect", "steps": steps, "timeout": 60.0, "externals": [], "meta": {"shape": shape, "rounds": rounds, "groups": groups, "nw": nw, "n_events": len(evs), "flaky_after_collect": flaky}}
+    return {"family": "collect", "steps": steps, "timeout": 60.0, "externals": [], "meta": {"shape": shape, "rounds": rounds, "groups": groups, "nw": nw, "n_events": len(evs), "flaky_after_collect": flaky, "forward_by_send": forward}}
 
 
 # ---------------------------------------------------------------- deterministic, idempotent family (C12 / C13 / C31)
